@@ -281,9 +281,13 @@ class CGen(Gen):
     def __init__(self, rng, cfg, **kw):
         super().__init__(rng, cfg, **kw)
         r = rng
-        style = r.choice(['dense', 'stride', 'stride', 'mixed'])
+        style = r.choice(['dense', 'stride', 'stride', 'mixed', 'collide', 'collide'])
         n = self.nkeys + 3
-        if style == 'dense':
+        if style == 'collide':
+            # int keys whose identity hash has index 0 and tag 0 for every hashpower <= 8 (bytes 1 and 2
+            # equal, bytes 0 and 3 zero): they fill one bucket pair whatever the table size
+            self.keyset = [(a << 8) | (a << 16) for a in range(1, n + 1)]
+        elif style == 'dense':
             self.keyset = list(range(1, n + 1))
         elif style == 'stride':
             st = 1 << r.choice([2, 3, 4, 8, 12])
